@@ -169,6 +169,7 @@ class Slot:
 def main():
     args = sys.argv[1:]
     jobs, per_file, seed, only_list = 2, 8, 1, False
+    rerun = None
     while args and args[0].startswith("--"):
         if args[0] == "--jobs":
             jobs = int(args[1]); args = args[2:]
@@ -178,9 +179,18 @@ def main():
             seed = int(args[1]); args = args[2:]
         elif args[0] == "--list":
             only_list = True; args = args[1:]
+        elif args[0] == "--rerun":
+            rerun = args[1].split(","); args = args[2:]
     out_path = f"{ROOT}/tools/automut_result.json"
     results = json.load(open(out_path)) if os.path.exists(out_path) else {}
     todo = []
+    if rerun:
+        # run named mutants ("file.rs:line") again, whatever was recorded for them
+        for f in FILES:
+            for c in candidates(f):
+                if f"{f.split('/')[-1]}:{c['line']}" in rerun and c["id"] in results:
+                    todo.append(c)
+        args = ["\0"]
     for f in FILES:
         if args and not any(a in f for a in args):
             continue
